@@ -24,7 +24,8 @@ func TestMain(m *testing.M) {
 		"Exhaustive: every placement of <=2 faults (k in 1..3) on linear pipelines of 1..2 (quick) / 1..3 (thorough) stages with 1..2 messages; random: up to 12 faults on all shapes with schedule noise at the router/gochannel hook points. "+
 		"Oracle: every source message whose Publish returned nil arrives at the final topic at least once for every path of the shape; everything at the final topic derives from a published source (lineage, path and payload = expected transform); "+
 		"inside every output Publish the consumed copy is unsettled; a consumed copy ends Acked only if its handler succeeded and its output Publish returned nil, otherwise Nacked. "+
-		"Non-trivial: at least one scripted fault actually fired on a message that later reached the final topic.")
+		"Non-trivial: at least one scripted fault actually fired on a message that later reached the final topic."+
+		" Topic names: t0..tN or generated strings (3 of 4 random cases).")
 	lib.Extra("assumptions", []string{
 		"no order and no exactly-once are demanded (duplicates are legal after a publisher error that happened after forwarding)",
 		"the pipeline is fully Running before the first source publish (GoChannel is not persistent); Router.Close only after quiescence",
